@@ -9,7 +9,8 @@ Black-box trace lines (all times are small integers, `now`):
   proc     k = spawn | kill | kill_gone | exit, pid (1, 2, ...), alive (after the step), why
   tick     virtual time moved
   ready    (white-box hint, never judged) the debouncer thread reached its first wait
-  quiescent, final (live helper threads, restart_count), deadlock, uncaught
+  quiescent, final (live helper threads, restart_count), deadlock, uncaught,
+  steplimit (the program did not come to rest within MAX_STEPS scheduler steps: a run-away loop)
 """
 
 from __future__ import annotations
@@ -17,6 +18,7 @@ from __future__ import annotations
 from harness import detsched, fakeproc, loader
 
 HELPERS = ("EventDebouncer", "ProcessWatcher")
+MAX_STEPS = 4000  # the programs here take < 300 scheduler steps; a run-away restart loop is cut here (outcome "steplimit")
 
 
 def _world():
@@ -93,6 +95,10 @@ def _wrap(program, unit, hdr, sched_kw):
             tr = _post(s, unit, hdr)
             tr.append({"t": "sched", "e": "deadlock", "blocked": [f"{x['task']}@{x['at']}" for x in d.info]})
             return {"trace": tr, "deadlock": True}
+        except detsched.StepLimit:
+            tr = _post(s, unit, hdr)
+            tr.append({"t": "sched", "e": "steplimit", "steps": s.steps})
+            return {"trace": tr, "steplimit": True}
         return {"trace": _post(s, unit, hdr)}
 
     wrapped.sched_kw = sched_kw
@@ -171,7 +177,7 @@ def deb_program(params):
         s.log("quiescent")
         s.log("final", live=_live_helpers(s), count=0)
 
-    return _wrap(program, DEB_UNIT, hdr, {"white": True})
+    return _wrap(program, DEB_UNIT, hdr, {"white": True, "max_steps": MAX_STEPS})
 
 
 def deb_random(params):
@@ -315,7 +321,7 @@ def ar_program(params):
         s.log("quiescent")
         s.log("final", live=_live_helpers(s), count=trick.restart_count)
 
-    return _wrap(program, AR_UNIT, hdr, {"white": True, "manual_timer": _manual})
+    return _wrap(program, AR_UNIT, hdr, {"white": True, "manual_timer": _manual, "max_steps": MAX_STEPS})
 
 
 def ar_random(params):
@@ -401,4 +407,4 @@ def sh_program(params):
         s.log("quiescent")
         s.log("final", live=_live_helpers(s), count=len(fakeproc.TABLE.procs))
 
-    return _wrap(program, SH_UNIT, hdr, {"white": True, "manual_timer": _manual})
+    return _wrap(program, SH_UNIT, hdr, {"white": True, "manual_timer": _manual, "max_steps": MAX_STEPS})
